@@ -1741,7 +1741,7 @@ fn main() {
             // the small members of the family also go through the model's own tokenizer/parser/evaluator
             // (text and fully expanded tree are sent), which ties the `s<n>` macro and the renderer
             if i < 4 {
-                if let Some(c) = parse_case(&line) {
+                if let Some(c) = parse_case(&line).filter(|c| c.text.len() < 4000) {
                     let t = c.tree.clone().unwrap();
                     out.put(make_case(c.text.clone(), &env0, Some(&t)));
                 }
